@@ -25,4 +25,5 @@ INVARIANT NoUpgrade
 PROPERTY FailFastStops
 PROPERTY FailFastNotEarlier
 PROPERTY StopReaches
+PROPERTY DeliveredStable
 CHECK_DEADLOCK FALSE
